@@ -102,8 +102,14 @@ fn fault_case(kind: &str, input: &[u8], from: Option<F>, to: F, k: usize, chunk:
 	json!({"kind": kind, "input_hex": hex(input), "input_text": show(input), "from": fname(from), "to": to.name(), "k": k, "chunk": chunk})
 }
 
+pub const KINDS: [std::io::ErrorKind; 4] = [std::io::ErrorKind::Other, std::io::ErrorKind::UnexpectedEof, std::io::ErrorKind::InvalidData, std::io::ErrorKind::Interrupted];
+
 fn reader_fault_one(input: &[u8], from: Option<F>, to: F, k: usize, chunk: usize, clean: &crate::run::Outcome) -> Option<(String, String)> {
-	let r = run_reader(FailAtReader::new(input, k, chunk), from, to);
+	reader_fault_kind(input, from, to, k, chunk, clean, std::io::ErrorKind::Other)
+}
+
+fn reader_fault_kind(input: &[u8], from: Option<F>, to: F, k: usize, chunk: usize, clean: &crate::run::Outcome, kind: std::io::ErrorKind) -> Option<(String, String)> {
+	let r = run_reader(FailAtReader::new(input, k, chunk).with_kind(kind), from, to);
 	if let Some(p) = &r.panic {
 		return Some(("reader-fault-panic".into(), format!("panic: {p}")));
 	}
@@ -168,6 +174,19 @@ pub fn run(ctx: &Ctx) -> CheckOutput {
 						if let Some((class, msg)) = reader_fault_one(input, from, to, k, chunk, &clean) {
 							t.bad(class, fault_case("reader-fault", input, from, to, k, chunk),
 								format!("input={} from={} to={} reader fails after {k} bytes (chunk {chunk}): {msg}", show(input), fname(from), to.name()));
+						}
+						// the kind of the reader's error must not matter (detection trials dispatch on it)
+						if chunk == 0 || chunk == 3 {
+							for kind in &KINDS[1..] {
+								t.evaluations += 1;
+								t.count("reader-fault:other-error-kinds");
+								if let Some((class, msg)) = reader_fault_kind(input, from, to, k, chunk, &clean, *kind) {
+									let mut case = fault_case("reader-fault", input, from, to, k, chunk);
+									case["error_kind"] = json!(format!("{kind:?}"));
+									t.bad(format!("{class}:{kind:?}"), case,
+										format!("input={} from={} to={} reader fails with kind {kind:?} after {k} bytes (chunk {chunk}): {msg}", show(input), fname(from), to.name()));
+								}
+							}
 						}
 					}
 					t.nontrivial(fnv(&[input, fname(from).as_bytes(), to.name().as_bytes(), &k.to_le_bytes()]));
@@ -273,12 +292,12 @@ pub fn run(ctx: &Ctx) -> CheckOutput {
 		}
 	}
 	let req = |k: &str| (k.to_string(), *tally.counters.get(k).unwrap_or(&0));
-	let required = vec![req("reader-fault:fault-free-ok"), req("reader-fault:fault-free-err"), req("writer-fault:points"), req("short-write:configs"), req("flush:cases")];
+	let required = vec![req("reader-fault:other-error-kinds"), req("reader-fault:fault-free-ok"), req("reader-fault:fault-free-err"), req("writer-fault:points"), req("short-write:configs"), req("flush:cases")];
 	let _ = Rc::new(0);
 	CheckOutput {
 		level: "fault_enumeration",
 		tally,
-		rule: "corpus: seed corpus of every format + valid multi-document streams; for each input x source in {explicit, detected} x 4 targets: (1) reader delivers exactly k bytes then fails forever, for EVERY k in 0..=len (k=len replaces the EOF answer) under each chunk policy; oracle: Err, no panic, injected text preserved whenever the fault-free run succeeds, complete documents of the partial output (target framing, last segment never counted) are a document-prefix of the fault-free output; plus explorer runs where 'fail' is offered at every read together with short-read deviations; (2) writer accepts exactly k bytes then fails, for EVERY k in 0..len(out), slice and reader: Err, accepted bytes are a prefix of the fault-free output; (3) every short-write schedule within the deviation bound and the all-1-byte policy: Ok and exactly the fault-free output; (4) Translator::flush forwards the writer's flush error. Distinct non-trivial = (input, source, target, fault offset).".into(),
+		rule: "corpus: seed corpus of every format + valid multi-document streams; for each input x source in {explicit, detected} x 4 targets: (1) reader delivers exactly k bytes then fails forever, for EVERY k in 0..=len (k=len replaces the EOF answer) under each chunk policy, with the error kinds Other, UnexpectedEof, InvalidData and Interrupted (once, then Other); oracle: Err, no panic, injected text preserved whenever the fault-free run succeeds, complete documents of the partial output (target framing, last segment never counted) are a document-prefix of the fault-free output; plus explorer runs where 'fail' is offered at every read together with short-read deviations; (2) writer accepts exactly k bytes then fails, for EVERY k in 0..len(out), slice and reader: Err, accepted bytes are a prefix of the fault-free output; (3) every short-write schedule within the deviation bound and the all-1-byte policy: Ok and exactly the fault-free output; (4) Translator::flush forwards the writer's flush error. Distinct non-trivial = (input, source, target, fault offset).".into(),
 		exhaustive: true,
 		bounds: json!({"short_write_deviations": d_short, "reader_fault_offsets": "all", "writer_fault_offsets": "all"}),
 		assumptions: vec!["failing readers/writers keep failing once they failed; Interrupted/Ok(0) are not offered".into()],
@@ -295,7 +314,13 @@ pub fn replay(case: &Value) -> Option<String> {
 			let input = unhex(&get("input_hex"));
 			let (from, to) = (F::parse(&get("from")), F::parse(&get("to")).unwrap());
 			let clean = run_reader(ChunkReader::new(&input, 0), from, to);
-			reader_fault_one(&input, from, to, case["k"].as_u64().unwrap() as usize, case["chunk"].as_u64().unwrap() as usize, &clean).map(|x| x.1)
+			let kind = match case["error_kind"].as_str() {
+				Some("UnexpectedEof") => std::io::ErrorKind::UnexpectedEof,
+				Some("InvalidData") => std::io::ErrorKind::InvalidData,
+				Some("Interrupted") => std::io::ErrorKind::Interrupted,
+				_ => std::io::ErrorKind::Other,
+			};
+			reader_fault_kind(&input, from, to, case["k"].as_u64().unwrap() as usize, case["chunk"].as_u64().unwrap() as usize, &clean, kind).map(|x| x.1)
 		}
 		"writer-fault-reader" | "writer-fault-slice" => {
 			let input = unhex(&get("input_hex"));
